@@ -21,7 +21,7 @@ def gen(rnd, cls):
                            repr(round(rnd.uniform(-50, 50), 2))])
     if cls == 'text':
         return rnd.choice(['abc', 'hello world', 'x1', '#', 'ñ', 'a', 'A', 'abd', 'TRUE', 'true', ' ', 'é', 'Zebra', 'zebra', '12abc',
-                           '1,5', 'ab' + chr(rnd.randint(97, 122)), '你好'])
+                           '1,5', 'ab' + chr(rnd.randint(97, 122)), '你好', '#N/A', '#DIV/0!', '#REF!', '#NAME?', '#NUM!', '#NULL!', '#VALUE!', '#ERROR!'])
     if cls == 'emptytext':
         return ''
     if cls == 'date':
